@@ -447,7 +447,7 @@ def observe(V: ByteVec, R: list, zero, name: str, extra_pass: bool = False):
             continue
         u = guard(f"slice({s},{e}).unwrap", lambda sl=sl: sl.unwrap())
         if want == 0:
-            if u != b"":
+            if not (isinstance(u, bytes) and u == b""):
                 bad.append((f"{name}.slice({s},{e}).unwrap", repr(u)[:80], "b''"))
             continue
         t = to_term(u, want, "")
@@ -467,7 +467,7 @@ def observe(V: ByteVec, R: list, zero, name: str, extra_pass: bool = False):
             pairs.append((f"{name}.slice({s},{e}).bytes", cat(sb), cat(ref_read(R, s, e, zero) + [zero]), want + 1))
     u = guard("unwrap", lambda: V.unwrap())
     if n == 0:
-        if u != b"":
+        if not (isinstance(u, bytes) and u == b""):
             bad.append((f"{name}.unwrap", repr(u)[:80], "b''"))
     else:
         t = to_term(u, n, "")
